@@ -6,6 +6,7 @@ import (
 	"context"
 	"fmt"
 	"os"
+	"net"
 	"os/exec"
 	"path/filepath"
 	"strings"
@@ -423,24 +424,35 @@ func init() {
 				}
 			}
 		}
-		// Cmd.Dir set, relative socket path announced: one address from every Start and from ReattachConfig
-		{
-			impl, pred := runLcRelDir()
-			o.emit("!C19.reldir ops=S,S,S,R", impl, pred)
+		// socket path not in canonical form (relative to Cmd.Dir; through a symbolic link): one address from every Start
+		// and from every ReattachConfig in between
+		for _, kind := range []string{"rel", "link"} {
+			impl, pred := runLcDir(kind)
+			o.emit("!C19.dir kind="+kind+" ops=S,R,S,R,S,R", impl, pred)
 		}
 		o.note("C19: %d operation sequences (exhaustive up to length %d over 7 ops with a scripted runner, up to %d over {S,C,P,K} with a real process, reattach live/dead up to 3)", len(cases), runnerLen, cmdLen+1)
 	})
 }
 
-// runLcRelDir: Cmd.Dir is set and the plugin announces a RELATIVE unix socket path (its TMPDIR is relative): every
-// successful Start — the launching one and the later ones — and ReattachConfig report one and the same address.
-func runLcRelDir() (impl, pred string) {
+// runLcDir: the plugin's unix socket path is not in canonical form — kind "rel": Cmd.Dir is set and the plugin announces a
+// RELATIVE path (its TMPDIR is relative); kind "link": its TMPDIR is reached through a symbolic link.  Every successful
+// Start — the launching one and the later ones — and every ReattachConfig in between report one and the same address, and
+// an address handed out earlier does not change under its holder.
+func runLcDir(kind string) (impl, pred string) {
 	work := os.Getenv("VERIF_WORK")
-	base := filepath.Join(work, fmt.Sprintf("lc-rel-%d", os.Getpid()))
+	base := filepath.Join(work, fmt.Sprintf("lc-%s-%d", kind, os.Getpid()))
 	os.MkdirAll(filepath.Join(base, "socks"), 0o755)
 	defer os.RemoveAll(base)
-	cmd := kitCmd(kitServeCfg{Sets: map[string]string{"3": "netrpc"}}, "TMPDIR=socks")
-	cmd.Dir = base
+	var cmd *exec.Cmd
+	if kind == "link" {
+		if err := os.Symlink(filepath.Join(base, "socks"), filepath.Join(base, "lnk")); err != nil {
+			return "setup-error", "FAIL:setup-symlink"
+		}
+		cmd = kitCmd(kitServeCfg{Sets: map[string]string{"3": "netrpc"}}, "TMPDIR="+filepath.Join(base, "lnk"))
+	} else {
+		cmd = kitCmd(kitServeCfg{Sets: map[string]string{"3": "netrpc"}}, "TMPDIR=socks")
+		cmd.Dir = base
+	}
 	client := plugin.NewClient(&plugin.ClientConfig{
 		HandshakeConfig:  kitHandshake(),
 		VersionedPlugins: kitHostSets(map[int]string{3: "netrpc"}, nil, nil),
@@ -456,25 +468,35 @@ func runLcRelDir() (impl, pred string) {
 		}
 	}()
 	var addrs []string
+	var first net.Addr
 	for i := 0; i < 3; i++ {
 		a, err := client.Start()
 		if err != nil || a == nil {
 			return "start-error", "FAIL:setup-start"
 		}
+		if first == nil {
+			first = a
+		}
 		addrs = append(addrs, a.Network()+"/"+a.String())
+		rc := client.ReattachConfig()
+		if rc == nil || rc.Addr == nil {
+			return "no-reattach-config", "FAIL:no-reattach-config"
+		}
+		addrs = append(addrs, rc.Addr.Network()+"/"+rc.Addr.String())
 	}
-	rc := client.ReattachConfig()
-	if rc == nil || rc.Addr == nil {
-		return "no-reattach-config", "FAIL:no-reattach-config"
-	}
-	addrs = append(addrs, rc.Addr.Network()+"/"+rc.Addr.String())
+	addrs = append(addrs, first.Network()+"/"+first.String())
 	same := true
 	for _, a := range addrs {
 		if a != addrs[0] {
 			same = false
 		}
 	}
-	impl = fmt.Sprintf("same=%s relative=%s", b01(same), b01(!filepath.IsAbs(strings.TrimPrefix(addrs[0], "unix/"))))
+	impl = fmt.Sprintf("same=%s", b01(same))
+	if kind == "rel" {
+		impl += " relative=" + b01(!filepath.IsAbs(strings.TrimPrefix(addrs[0], "unix/")))
+	} else {
+		impl += " vialink=" + b01(strings.Contains(addrs[0], "/lnk/"))
+	}
 	if !same {
 		return impl + " " + strings.Join(addrs, ","), "FAIL:successful-starts-returned-different-addresses"
 	}
